@@ -159,7 +159,10 @@ def finish (d : HDrv) (st : HState) (now : Nat) (res : String) (effs : List HEff
 /-- `token=I<n>`: the n-th token this node handed out (20 zero bytes if there is none yet) -/
 def resolveIssued (d : HDrv) (ws : List String) : List String :=
   ws.map fun w =>
-    if w.startsWith "token=I" then
+    -- `token=<spec>+<hex>`: a token followed by further bytes — some bytes of another length than 20
+    if w.startsWith "token=" ∧ (w.splitOn "+").length = 2 then
+      "token=" ++ hexOfBytes (List.replicate 21 7)
+    else if w.startsWith "token=I" then
       match (w.drop 7).toString.toNat? with
       | some n => "token=" ++ (match d.issued[n]? with
           | some tk => tokStr tk
